@@ -30,6 +30,13 @@ MUTANTS = [
     dict(id="C01-struct-prefix-skip", prop="C01", file=PU,
          old="    stream = BytesIO(data[4:] if is_struct else data[2:])",
          new="    stream = BytesIO(data[2:] if is_struct else data[2:])"),
+    # state that leaks between two driver instances in one process (caught by the second-driver scenarios)
+    dict(id="C01-shared-udt-cache", prop="C01", file=L,
+         old='            "id:udt": {},\n',
+         new='            "id:udt": globals().setdefault("_UDT_CACHE", {}),\n'),
+    dict(id="C17-shared-sequence", prop="C17", file=C,
+         old="        self._sequence: cycle = cycle(65535, start=1)\n",
+         new='        self._sequence: cycle = globals().setdefault("_SEQ", cycle(65535, start=1))\n'),
     # ---- C02 ----
     dict(id="C02-setbit-ormask", prop="C02", file=PL,
          old="            self._or_mask |= 1 << bit\n            self._and_mask |= 1 << bit\n",
